@@ -148,10 +148,10 @@ theorem finals_are_the_exact_matches {cands : List Cand} {args : List ETy}
 
 /-- **A unique exact match is selected.** -/
 theorem unique_exact_selected {cands : List Cand} {args : List ETy}
-    (hid : (cands.map (·.id)).Nodup) (hnp : NoPanic cands args) {c : Cand} (hc : c ∈ cands)
+    (hid : (cands.map (·.id)).Nodup) {c : Cand} (hc : c ∈ cands)
     (hex : ExactMatch args c) (huniq : ∀ d ∈ cands, ExactMatch args d → d.id = c.id) :
     resolve cands args = .selected c.id := by
-  rw [resolve_of_noPanic hnp]
+  rw [resolve_of_noPanic (noPanic_always cands args)]
   have hiff := finals_are_the_exact_matches hid hc hex
   obtain ⟨rs, hv, hre⟩ := hex
   have hx : (c.id, rs) ∈ rankedList cands args := mem_rankedList.mpr ⟨c, hc, hv⟩
@@ -170,11 +170,11 @@ theorem unique_exact_selected {cands : List Cand} {args : List ETy}
     lvalue, or `f(int)` / `f(int, int = 0)` called with one argument).  The reported set contains both and consists of
     exactly matching candidates only. -/
 theorem twin_exact_ambiguous {cands : List Cand} {args : List ETy}
-    (hid : (cands.map (·.id)).Nodup) (hnp : NoPanic cands args) {c d : Cand} (hc : c ∈ cands) (hd : d ∈ cands)
+    (hid : (cands.map (·.id)).Nodup) {c d : Cand} (hc : c ∈ cands) (hd : d ∈ cands)
     (hne : c.id ≠ d.id) (hexc : ExactMatch args c) (hexd : ExactMatch args d) :
     ∃ ids, resolve cands args = .ambiguous ids ∧ c.id ∈ ids ∧ d.id ∈ ids ∧
       ∀ i ∈ ids, ∃ e ∈ cands, e.id = i ∧ ExactMatch args e := by
-  rw [resolve_of_noPanic hnp]
+  rw [resolve_of_noPanic (noPanic_always cands args)]
   have hiff := finals_are_the_exact_matches hid hc hexc
   obtain ⟨rc, hvc, hrec⟩ := hexc
   obtain ⟨rd, hvd, hred⟩ := hexd
@@ -226,23 +226,32 @@ theorem tournament_without_winner :
              ⟨1, [⟨⟨{}, .scalar .int32⟩, .in⟩, ⟨⟨{}, .scalar .float32⟩, .in⟩], 2⟩]
       [⟨⟨{}, .scalar .intLiteral⟩, .rvalue⟩, ⟨⟨{}, .scalar .intLiteral⟩, .rvalue⟩] = .unmatched := by decide
 
-/-- the reachable panic of `get_rank` (scalar argument, matrix parameter), reproduced on the real code -/
-theorem scalar_to_matrix_panics :
-    resolve [⟨0, [⟨⟨{}, .matrix .float32 2 2⟩, .in⟩], 1⟩] [⟨⟨{}, .scalar .float32⟩, .rvalue⟩] = .panic := by decide
+/-- the former panic of `get_rank` (scalar argument, matrix parameter; fixed in /repo 368a51b): now ranked
+    `Expand` and selected; corpus lines replay it on the real code -/
+theorem scalar_to_matrix_selected :
+    rankCand [⟨⟨{}, .scalar .float32⟩, .rvalue⟩] ⟨0, [⟨⟨{}, .matrix .float32 2 2⟩, .in⟩], 1⟩
+      = .ranked 0 [⟨.exact, .expand⟩] ∧
+    resolve [⟨0, [⟨⟨{}, .matrix .float32 2 2⟩, .in⟩], 1⟩] [⟨⟨{}, .scalar .float32⟩, .rvalue⟩] = .selected 0 ∧
+    resolve [⟨0, [⟨⟨{}, .matrix .float32 2 2⟩, .in⟩], 1⟩, ⟨1, [⟨⟨{}, .scalar .int32⟩, .in⟩], 1⟩]
+      [⟨⟨{}, .scalar .float32⟩, .rvalue⟩] = .selected 0 := by decide
 
 /-! ## the conversion model: panic freedom, and the property as worded on its own quantifier -/
 
 /-- `ImplicitConversion::find` never reaches the `unreachable!()` arms of its rank table -/
 theorem find_total (s d : ETy) : ∃ r, find s d = .ok r := find_no_panic s d
 
-/-- `get_rank` after `find` can only panic for a matrix destination (and does: `scalar_to_matrix_panics`) -/
+/-- `get_rank` after `find` does not panic for a non-matrix destination (kept from before /repo 368a51b; subsumed by
+    `findRank_total`) -/
 theorem findRank_total_off_matrix {a d : ETy} (hd : ¬ IsMatrix d.ty.layer) : ∃ r, findRank a d = .ok r :=
   findRank_no_panic hd
 
-/-- no candidate with a matrix parameter ⇒ overload resolution reaches no panic site -/
-theorem resolve_no_panic {cands : List Cand} (args : List ETy)
-    (h : ∀ c ∈ cands, ∀ p ∈ c.params, ¬ IsMatrix p.ty.layer) : resolve cands args ≠ .panic := by
-  rw [resolve_of_noPanic (noPanic_of_no_matrix args h)]
+/-- **since /repo 368a51b** (`get_rank` ranks scalar → matrix as `Expand`): `find` followed by `get_rank` never
+    panics, for any two expression types — every dimension cast `find` can build has an arm in `get_rank` -/
+theorem findRank_total (a d : ETy) : ∃ r, findRank a d = .ok r := RsslVerif.Lemmas.Conv.findRank_total a d
+
+/-- overload resolution reaches no panic site, for **any** candidates and arguments -/
+theorem resolve_no_panic (cands : List Cand) (args : List ETy) : resolve cands args ≠ .panic := by
+  rw [resolve_of_noPanic (noPanic_always cands args)]
   unfold resolveRanked
   split <;> simp
 
@@ -261,8 +270,7 @@ theorem exact_type_match_selected_on_grid {cands : List Cand} {args : List ETy}
     {c : Cand} (hc : c ∈ cands) (hex : TypeExact args c)
     (huniq : ∀ d ∈ cands, TypeExact args d → d.id = c.id) :
     resolve cands args = .selected c.id := by
-  apply unique_exact_selected hid
-    (noPanic_of_no_matrix args fun d hd p hp => onGrid_not_matrix (hgrid d hd p hp)) hc
+  apply unique_exact_selected hid hc
     ((exactMatch_iff_typeExact (hgrid c hc) hargs).mpr hex)
   intro d hd hde
   exact huniq d hd ((exactMatch_iff_typeExact (hgrid d hd) hargs).mp hde)
@@ -275,8 +283,7 @@ theorem exact_type_twins_ambiguous_on_grid {cands : List Cand} {args : List ETy}
     (hexc : TypeExact args c) (hexd : TypeExact args d) :
     ∃ ids, resolve cands args = .ambiguous ids ∧ c.id ∈ ids ∧ d.id ∈ ids ∧
       ∀ i ∈ ids, ∃ e ∈ cands, e.id = i ∧ TypeExact args e := by
-  obtain ⟨ids, hr, h1, h2, h3⟩ := twin_exact_ambiguous hid
-    (noPanic_of_no_matrix args fun d hd p hp => onGrid_not_matrix (hgrid d hd p hp)) hc hd hne
+  obtain ⟨ids, hr, h1, h2, h3⟩ := twin_exact_ambiguous hid hc hd hne
     ((exactMatch_iff_typeExact (hgrid c hc) hargs).mpr hexc)
     ((exactMatch_iff_typeExact (hgrid d hd) hargs).mpr hexd)
   refine ⟨ids, hr, h1, h2, ?_⟩
